@@ -55,17 +55,25 @@ theorem C18_spec_holds (k : Kind) (shape : Shape) (blocking : Bool) (limit start
 example : (call .readBuf [8] false 1000000000 0 [.again, .moved 8] [.full]).ret = -1 := by decide
 example : (call .readBuf [8] true 1000000000 0 [.again, .moved 8] [.full]).ret = 8 := by decide
 
+theorem remap_frame (o : Out) : (remapTimeout o).waits = o.waits ∧ (remapTimeout o).elapsed = o.elapsed ∧
+    (remapTimeout o).blockingAfter = o.blockingAfter ∧ (remapTimeout o).ret = o.ret := by
+  unfold remapTimeout; split <;> exact ⟨rfl, rfl, rfl, rfl⟩
+
 /-- `connect` on a descriptor the caller made non-blocking never waits: it returns the kernel's
 answer (0, or −1 with EINPROGRESS / EINTR / the error) after the one inner call. -/
 theorem C18_connect_nonblocking_never_waits (limit start : Nat) (first : CResp) (waits : List WResp) :
     (connectCall false limit start first waits).waits = [] ∧ (connectCall false limit start first waits).elapsed = 0 := by
   unfold connectCall
+  rw [(remap_frame _).1, (remap_frame _).2.1]
+  unfold connectCore
   cases first <;> simp
 
 /-- `connect` leaves the descriptor's blocking mode as the caller set it, whatever the outcome. -/
 theorem C18_connect_flag_restored (blocking : Bool) (limit start : Nat) (first : CResp) (waits : List WResp) :
     (connectCall blocking limit start first waits).blockingAfter = blocking := by
   unfold connectCall
+  rw [(remap_frame _).2.2.1]
+  unfold connectCore
   cases first <;> simp only <;> (try rfl) <;> (split <;> (try rfl) <;> (split <;> (try rfl) <;> (split <;> rfl)))
 
 /-- A blocking `connect` waits at most once, for at most a slice and never longer than the send time
@@ -79,11 +87,13 @@ theorem C18_connect_waits_bounded (blocking : Bool) (limit start : Nat) (first :
     · have : min U64MAX (start + limit) - start ≤ limit := by
         have := Nat.min_le_right U64MAX (start + limit); omega
       exact Nat.le_trans (Nat.min_le_left _ _) this
+  unfold connectCall
+  rw [(remap_frame _).1]
   have key : ∀ (r : CResp), (∀ n, r ≠ .moved n) →
-      (connectCall blocking limit start r waits).waits.length ≤ 1 ∧
-      ∀ w ∈ (connectCall blocking limit start r waits).waits, w ≤ SLICE ∧ w ≤ limit := by
+      (connectCore blocking limit start r waits).waits.length ≤ 1 ∧
+      ∀ w ∈ (connectCore blocking limit start r waits).waits, w ≤ SLICE ∧ w ≤ limit := by
     intro r hr
-    have hcc : connectCall blocking limit start r waits =
+    have hcc : connectCore blocking limit start r waits =
         (if !blocking then ({ ret := -1, errno := errnoOf r, reqs := [⟨[], 1⟩], waits := [], blockingAfter := blocking, elapsed := 0, moved := 0, lastErr := some (errnoOf r) } : Out)
          else if !underWay (errnoOf r) then { ret := -1, errno := errnoOf r, reqs := [⟨[], 1⟩], waits := [], blockingAfter := blocking, elapsed := 0, moved := 0, lastErr := some (errnoOf r) }
          else match waits with
@@ -103,7 +113,7 @@ theorem C18_connect_waits_bounded (blocking : Bool) (limit start : Nat) (first :
       · exact ⟨by simp, by intro w h; simp at h⟩
       · split <;> exact ⟨by simp, by intro w h; simp only [List.mem_singleton] at h; subst h; exact hw⟩
   cases first with
-  | moved n => unfold connectCall; exact ⟨by simp, by intro w h; simp at h⟩
+  | moved n => unfold connectCore; exact ⟨by simp, by intro w h; simp at h⟩
   | again => exact key _ (by intro n; simp)
   | intr => exact key _ (by intro n; simp)
   | err e => exact key _ (by intro n; simp)
